@@ -224,7 +224,7 @@ class Ctx:
             return False
         seen = {}
         for m in re.finditer(
-            r"'([^']+)' (?:depends on axioms: \[([^\]]*)\]|does not depend on any axioms)", out
+            r"'(\S+)' (?:depends on axioms: \[([^\]]*)\]|does not depend on any axioms)", out
         ):
             axs = set(a.strip() for a in (m.group(2) or "").replace("\n", " ").split(",") if a.strip())
             seen[m.group(1)] = axs
